@@ -128,6 +128,13 @@ def replay_C06(w, clause):
 
 def dispatch(rec):
     prop = rec["prop"]
+    if isinstance(rec.get("witness"), dict) and "lemma" in rec["witness"]:
+        from . import lemma
+
+        try:
+            return lemma.replay_lemma(rec["witness"], rec.get("clause"))
+        except Exception as e:
+            return {"reproduced": None, "error": f"{type(e).__name__}: {e}\n{traceback.format_exc()[-1500:]}"}
     fn = globals().get("replay_" + prop)
     if fn is None:
         import importlib
